@@ -124,6 +124,17 @@ let run_case op t =
       let ty = next_str t in let _ = next_int t in let _ = next_int t in
       let x = read_f ty t in let y = read_f ty t in
       let s = okf ty false (if op = "fmod_rt" then rt_fmod x y else rt_remainder x y) in (s, s)
+  | "wmemmove" ->
+      let _ = next_int t in let d = next_nat t in let s = next_nat t in let n = next_nat t in let m = next_zlist t in
+      let okl l = join ("ok" :: List.map str_of_z l) in
+      (res_s okl (ct_memmove m d s n), okl (memmove_s m d s n))
+  | "wmemmove2" ->
+      let _ = next_int t in let d = next_int t in let s = next_int t in let n = next_nat t in let m = next_zlist t in
+      let rec drop k l = if k <= 0 then l else (match l with [] -> [] | _ :: r -> drop (k - 1) r) in
+      let rec take k l = if k <= 0 then [] else (match l with [] -> [] | x :: r -> x :: take (k - 1) r) in
+      let dst = List.init 12 (fun i -> z_of_int (100 + i)) in
+      let okl l = join ("ok" :: List.map str_of_z (take d dst @ l)) in
+      (res_s okl (ct_memmove2 (drop d dst) (drop s m) n), okl (memcpy_s (drop d dst) (drop s m) n))
   (* single-path samples: one description, printed in both legs *)
   | "civil" ->
       let _ = next_int t in let z = next_z t in
